@@ -28,7 +28,9 @@ RULE = ('a scene = non-square image (6..40 x 6..60) + zenithal header (5 project
         'aegean command line option interactions (in-process main(argv)): --region B alone, --autoload alone with / '
         'without sibling img.mim (a DIFFERENT region A) and img_bkg/img_rms.fits, both options in either order; expected '
         '= unrestricted run filtered by the region the user named, else the sibling region under --autoload, else '
-        'unfiltered.  An evaluation = one restricted find_islands call judged against the '
+        'unfiltered.  Big islands (1100 ... 14000 pixels: blobs, thick bars, L, rings; beyond any internal block size) '
+        'with regions that cover only the cells under their first / last row(s) or column(s), at find_islands level and, '
+        'for 1100-3000 pixel sources, through find_sources_in_image.  An evaluation = one restricted find_islands call judged against the '
         'filtered unrestricted call (or one restricted/unrestricted pair of find_sources_in_image runs); non-trivial '
         '= at least one unrestricted island with a determined keep/drop status; distinct = distinct (image, header, '
         'region cell set) hashes within a case, cases with equal hash counted once')
@@ -54,7 +56,12 @@ MIN_COUNTERS = {'restricted_calls_judged': 1000, 'islands_kept': 300, 'islands_d
                 'finder_pairs_crval1_negative': 3, 'cli_runs_judged': 60, 'cli_islands_kept': 100, 'cli_islands_dropped': 100,
                 'cli_components_compared': 100, 'cli_autoload_and_region_with_different_sibling_region': 12,
                 'cli_scenario_region_only': 8, 'cli_scenario_autoload_sibling_mim': 8,
-                'cli_scenario_autoload_then_region_sibling_mim': 8, 'cli_scenario_region_then_autoload_sibling_mim': 8}
+                'cli_scenario_autoload_then_region_sibling_mim': 8, 'cli_scenario_region_then_autoload_sibling_mim': 8,
+                'big_islands_judged': 300, 'big_islands_1k_2k': 50, 'big_islands_2k_4k': 50, 'big_islands_4k_10k': 50,
+                'big_islands_10k_plus': 50, 'big_islands_kept_by_under_5_percent_of_their_pixels': 100,
+                'big_islands_kept_by_last_rows_only': 40, 'big_islands_kept_by_first_rows_only': 20,
+                'big_islands_kept_by_last_cols_only': 20, 'big_islands_kept_by_first_cols_only': 20,
+                'finder_big_pairs': 6, 'finder_big_islands_judged': 6, 'finder_big_islands_kept_by_last_rows_only': 1}
 
 E_DEG = 1e-7
 BATCHES_PER_JOB = 1     # importing AegeanTools + oracle self-checks cost ~8 s per worker process
@@ -340,6 +347,26 @@ def build_region(rng, kind, scene, z, islands_pix, maxdepth):
                         depth=None if rng.random() < 0.5 else max(2, maxdepth - 2))
     elif kind == 'empty':
         pass
+    elif kind.startswith('big_'):
+        # only the cells under the pixels of the first / last row(s) / column(s) of the biggest island
+        if not islands_pix:
+            return None
+        big = max(islands_pix, key=len)
+        k = int(rng.integers(1, 3))
+        rs = sorted(set(p[0] for p in big))
+        cs = sorted(set(p[1] for p in big))
+        if kind == 'big_first_rows':
+            sel = [p for p in big if p[0] in rs[:k]]
+        elif kind == 'big_last_rows':
+            sel = [p for p in big if p[0] in rs[-k:]]
+        elif kind == 'big_first_cols':
+            sel = [p for p in big if p[1] in cs[:k]]
+        elif kind == 'big_last_cols':
+            sel = [p for p in big if p[1] in cs[-k:]]
+        else:
+            raise ValueError(kind)
+        c, _ = cells_of(z, maxdepth, [p[0] for p in sel], [p[1] for p in sel])
+        reg.add_pixels(sorted(set(int(v) for v in c)), maxdepth)
     else:
         if not islands_pix:
             return None
@@ -387,6 +414,12 @@ def cases(seed, tier):
             out.append({'kind': 'finder', 'via': 'cli', 'seed': [seed, 'cli', k]})
     for k in range(16 if tier == 'quick' else 64):
         out.append({'kind': 'cli_options', 'seed': [seed, 'cli_options', k]})
+    for k in range(32 if tier == 'quick' else 320):
+        out.append({'kind': 'big_islands', 'target': BIG_TARGETS[k % len(BIG_TARGETS)], 'n_scenes': 2,
+                    'seed': [seed, 'big_islands', k]})
+    for k in range(8 if tier == 'quick' else 32):
+        out.append({'kind': 'finder_big', 'side': ['big_last_rows', 'big_first_rows', 'big_last_cols', 'big_first_cols'][k % 4],
+                    'seed': [seed, 'finder_big', k]})
     return out
 
 
@@ -407,6 +440,12 @@ def run(case):
         finder_case(o, case, distinct)
     elif case['kind'] == 'cli_options':
         cli_options_case(o, case, distinct)
+    elif case['kind'] == 'big_islands':
+        rng = rng_for(*case['seed'])
+        for _ in range(case['n_scenes']):
+            eval_scene(o, rng, make_big_scene(rng, case['target']), list(BIG_KINDS), distinct)
+    elif case['kind'] == 'finder_big':
+        finder_big_case(o, case, distinct)
     o.n_nontrivial = len(distinct)
     return o.result()
 
@@ -462,7 +501,7 @@ def eval_scene(o, rng, scene, kinds, distinct):
     im, bkg, rms = scene['im'], scene['bkg'], scene['rms']
     seed, flood = 5.0, 4.0
     helper = WCSHelper.from_header(hdr)
-    wit0 = {'header': _hdr_dict(hdr), 'im': im.tolist(), 'bkg': float(bkg[0, 0]), 'rms': float(rms[0, 0]), 'seed': seed,
+    wit0 = {'header': _hdr_dict(hdr), 'im': im.tolist() if im.size <= 3000 else {'omitted': True, 'shape': list(im.shape)}, 'bkg': float(bkg[0, 0]), 'rms': float(rms[0, 0]), 'seed': seed,
             'flood': flood}
     try:
         with np.errstate(invalid='ignore'):
@@ -531,6 +570,8 @@ def eval_scene(o, rng, scene, kinds, distinct):
                 continue
             if elong:
                 o.count('elongated_islands_judged')
+            if len(p) > 1024:
+                _count_big(o, p, st, mem, 'big_')
             if st == 'keep':
                 n_keep += 1
                 o.count('islands_kept')
@@ -565,6 +606,97 @@ def eval_scene(o, rng, scene, kinds, distinct):
                 'unrestricted_islands': len(upix), 'last_region_kind': kinds[-1] if kinds else None}
 
 
+def _count_big(o, p, st, mem, prefix):
+    """sensitivity counters for islands larger than any plausible internal block size"""
+    n = len(p)
+    cls = '1k_2k' if n < 2048 else ('2k_4k' if n < 4096 else ('4k_10k' if n < 10000 else '10k_plus'))
+    o.count(prefix + 'islands_judged')
+    o.count(prefix + 'islands_' + cls)
+    if st != 'keep':
+        o.count(prefix + 'islands_dropped')
+        return
+    o.count(prefix + 'islands_kept')
+    inside = [q for q in p if mem.judged[q] and mem.inside[q]]
+    if len(inside) * 20 <= n:
+        o.count(prefix + 'islands_kept_by_under_5_percent_of_their_pixels')
+        r0, r1, c0, c1 = _box(p)
+        rlo, rhi = min(q[0] for q in inside), max(q[0] for q in inside)
+        clo, chi = min(q[1] for q in inside), max(q[1] for q in inside)
+        if rlo >= r1 - 3:
+            o.count(prefix + 'islands_kept_by_last_rows_only')
+            o.count(prefix + 'islands_kept_by_last_rows_only_' + cls)
+        if rhi <= r0 + 2:
+            o.count(prefix + 'islands_kept_by_first_rows_only')
+        if clo >= c1 - 3:
+            o.count(prefix + 'islands_kept_by_last_cols_only')
+        if chi <= c0 + 2:
+            o.count(prefix + 'islands_kept_by_first_cols_only')
+
+
+def make_big_scene(rng, target):
+    """one extended island of about `target` pixels (blob, thick bar, thick L, ring) plus a few small ones"""
+    shape_kind = str(rng.choice(['blob', 'bar', 'L', 'ring']))
+    side = int(np.ceil(np.sqrt(target)))
+    if shape_kind == 'blob':
+        a, b = 0.75 * side, 0.45 * side          # semi-axes, area = pi a b ~ 1.06 target
+        rows, cols = int(2 * b + 14), int(2 * a + 16)
+        ii, jj = np.indices((rows, cols))
+        t = float(rng.uniform(-0.3, 0.3))
+        u = (jj - cols / 2.0) * np.cos(t) + (ii - rows / 2.0) * np.sin(t)
+        v = -(jj - cols / 2.0) * np.sin(t) + (ii - rows / 2.0) * np.cos(t)
+        big = (u / a) ** 2 + (v / b) ** 2 <= 1.0
+    elif shape_kind == 'bar':
+        w = int(rng.integers(6, 14))
+        ln = int(np.ceil(target / w)) + 1
+        rows, cols = w + 12, ln + 12
+        big = np.zeros((rows, cols), dtype=bool)
+        big[6:6 + w, 6:6 + ln] = True
+    elif shape_kind == 'L':
+        w = int(rng.integers(5, 11))
+        arm = int(np.ceil(target / (2.0 * w))) + w
+        rows, cols = arm + 12, arm + 16
+        big = np.zeros((rows, cols), dtype=bool)
+        big[6:6 + arm, 6:6 + w] = True
+        big[6 + arm - w:6 + arm, 6:6 + arm] = True
+    else:
+        w = int(rng.integers(4, 8))
+        q = int(np.ceil(target / (4.0 * w))) + w
+        rows, cols = q + 12, q + 18
+        big = np.zeros((rows, cols), dtype=bool)
+        big[6:6 + q, 8:8 + q] = True
+        big[6 + w:6 + q - w, 8 + w:8 + q - w] = False
+    if rng.random() < 0.5:
+        big = big.T.copy()
+        rows, cols = cols, rows
+    if rows == cols:
+        big = np.pad(big, ((0, 0), (0, 3)))
+        cols += 3
+    level = np.where(big, F, 0.0)
+    rr, cc = np.where(big)
+    for _ in range(6):
+        k = int(rng.integers(0, len(rr)))
+        level[rr[k], cc[k]] = S
+    # small islands in the free corners / margins
+    for _ in range(int(rng.integers(2, 7))):
+        r, c = int(rng.integers(0, rows)), int(rng.integers(0, cols))
+        if not big[max(0, r - 2):r + 3, max(0, c - 2):c + 3].any():
+            level[r, c] = S
+    depth = int(rng.integers(10, 14))
+    # cells not much smaller than a pixel: the circle / whole-image regions of these large images stay below ~1e5 cells
+    ratio = float(10 ** rng.uniform(np.log10(0.9 if target < 3000 else 1.5), np.log10(3.0)))
+    ps = 58.6323 / 2 ** depth / ratio
+    ra0 = float(rng.choice([rng.uniform(0, 360), -3.0, 359.9]))
+    hdr = wcs_zenithal.make_header(str(rng.choice(wcs_zenithal.PROJECTIONS)), (ra0, float(rng.uniform(-70, 70))),
+                                   (float(rng.uniform(0, cols)), float(rng.uniform(0, rows))),
+                                   (float(rng.choice([-1, 1])) * ps, ps), (rows, cols), beam=(3 * ps, 2 * ps, 20.0))
+    return {'rows': rows, 'cols': cols, 'depth': depth, 'ratio': ratio, 'pixscale': ps, 'header': hdr,
+            'im': level.copy(), 'bkg': np.zeros((rows, cols)), 'rms': np.ones((rows, cols)), 'big_shape': shape_kind}
+
+
+BIG_TARGETS = (1100, 1500, 2100, 3000, 4200, 6500, 10500, 14000)
+BIG_KINDS = ['big_first_rows', 'big_last_rows', 'big_first_cols', 'big_last_cols', 'big_last_rows', 'circle', 'whole', 'empty']
+
+
 def _mech(z, depth, cells, snr, flood, pix, observed_kept):
     try:
         if buggy_recipe_decision(z, depth, cells, snr, flood, pix) == observed_kept:
@@ -592,7 +724,7 @@ def _src_diff(a, b, names):
     return [n for n in names if n not in SKIP_ATTR and not _same(getattr(a, n), getattr(b, n))]
 
 
-def _run_finder(sf_mod, fn, sigma, inner, outer, mask):
+def _run_finder(sf_mod, fn, sigma, inner, outer, mask, **kw):
     calls = []
     orig = sf_mod.SourceFinder._fit_island
 
@@ -605,7 +737,7 @@ def _run_finder(sf_mod, fn, sigma, inner, outer, mask):
     sf_mod.SourceFinder._fit_island = spy
     try:
         finder = sf_mod.SourceFinder()
-        srcs = finder.find_sources_in_image(fn, rms=sigma, bkg=0.0, cores=1, innerclip=inner, outerclip=outer, mask=mask)
+        srcs = finder.find_sources_in_image(fn, rms=sigma, bkg=0.0, cores=1, innerclip=inner, outerclip=outer, mask=mask, **kw)
     finally:
         sf_mod.SourceFinder._fit_island = orig
     return calls, list(srcs)
@@ -929,3 +1061,78 @@ def cli_options_case(o, case, distinct):
     o.see('cli_crval1_sign', 'negative' if hdr['CRVAL1'] < 0 else 'positive')
     o.sample = {'shape': [rows, cols], 'depth': depth, 'unrestricted_islands': len(upix), 'kept_by_A': len(A[2]),
                 'kept_by_B': len(B[2]), 'regions_differ': differ, 'scenarios': [CLI_SCENARIOS[i][0] for i in sorted(set(chosen))]}
+
+
+# ----------------------------------------------------------------------------- find_sources_in_image with one big island
+def finder_big_case(o, case, distinct):
+    """one extended source whose island has 1100-3000 pixels plus compact ones; the region covers only the cells under
+    one end (first/last rows/columns) of the big island.  The fit is kept cheap: smooth source, low real noise, one
+    summit, no covariance matrix."""
+    from astropy.io import fits
+    from AegeanTools import source_finder as sf_mod
+    from AegeanTools.models import ComponentSource
+    from aegmon.refs import render
+    rng = rng_for(*case['seed'])
+    rows, cols = int(rng.integers(84, 100)), int(rng.integers(110, 130))
+    if rng.random() < 0.4:
+        rows, cols = cols, rows
+    depth = int(rng.integers(11, 14))
+    ratio = float(10 ** rng.uniform(np.log10(0.5), np.log10(3.0)))
+    pix = 58.6323 / 2 ** depth / ratio
+    beam = (3.0 * pix, 2.2 * pix, float(rng.uniform(-90, 90)))
+    hdr = wcs_zenithal.make_header(proj=str(rng.choice(['SIN', 'TAN', 'ZEA'])),
+                                   crval=(float(rng.choice([rng.uniform(0, 360), -2.5])), float(rng.uniform(-60, 60))),
+                                   crpix=(cols / 2.0, rows / 2.0), cdelt=(-pix, pix), shape=(rows, cols), beam=beam)
+    z = wcs_zenithal.ZenithalWCS(hdr)
+    sigma = 1.0
+    ra, dec = z.index2sky(rows / 2.0 + rng.uniform(-4, 4), cols / 2.0 + rng.uniform(-4, 4))
+    fa, fb = float(rng.uniform(26, 36)), float(rng.uniform(17, 24))          # FWHM in pixels
+    srcs = [{'ra': float(ra), 'dec': float(dec), 'peak': 60.0 * float(rng.choice([1, 1, -1])), 'a': fa * pix * 3600,
+             'b': fb * pix * 3600, 'pa': float(rng.uniform(-90, 90))}]
+    for _ in range(6):
+        r, c = rng.uniform(3, rows - 4), rng.uniform(3, cols - 4)
+        if abs(r - rows / 2.0) > 0.36 * rows or abs(c - cols / 2.0) > 0.40 * cols:
+            ra, dec = z.index2sky(r, c)
+            srcs.append({'ra': float(ra), 'dec': float(dec), 'peak': float(rng.uniform(10, 30)), 'a': beam[0] * 3600,
+                         'b': beam[1] * 3600, 'pa': beam[2]})
+    img = render.render(z, (rows, cols), srcs)
+    img += render.correlated_noise(rng, (rows, cols), 0.03 * sigma, (beam[0] / pix / 2.355, beam[1] / pix / 2.355), beam[2])
+    data32 = img.astype(np.float32)
+    inner, outer = 5.0, 4.0
+    names = [n for n in ComponentSource.names]
+    d = scratch_dir()
+    try:
+        fn = os.path.join(d, 'img.fits')
+        fits.PrimaryHDU(data=data32, header=hdr).writeto(fn)
+        try:
+            ucalls, usrcs = _run_finder(sf_mod, fn, sigma, inner, outer, None, docov=False, max_summits=2)
+        except Exception:
+            o.violate('raises', {'where': 'unrestricted run', 'case': case, 'traceback': traceback.format_exc()[-800:]})
+            return
+        upix = [c[1] for c in ucalls]
+        kind = case['side']
+        reg = build_region(rng, kind, {'rows': rows, 'cols': cols, 'pixscale': pix}, z, upix, depth)
+        if reg is None:
+            raise RuntimeError('harness: no island found in a finder_big field')
+        cells = region_cells(copy_pixeldict(reg), reg.maxdepth)
+        mem = Membership(z, (rows, cols), reg.maxdepth, cells)
+        try:
+            rcalls, rsrcs = _run_finder(sf_mod, fn, sigma, inner, outer, reg, docov=False, max_summits=2)
+        except Exception:
+            o.violate('raises', {'where': 'restricted run', 'case': case, 'region_kind': kind,
+                                 'traceback': traceback.format_exc()[-800:]})
+            return
+    finally:
+        shutil.rmtree(d, ignore_errors=True)
+    o.n_eval += 1
+    o.count('finder_big_pairs')
+    for p in upix:
+        if len(p) > 1024:
+            _count_big(o, p, mem.island_status(p)[0], mem, 'finder_big_')
+    wit = {'case': case, 'region_kind': kind, 'depth': depth, 'shape': [rows, cols], 'inner': inner, 'outer': outer,
+           'biggest_island_pixels': max([len(p) for p in upix] or [0])}
+    nk, nd = compare_catalogues(o, wit, mem, ucalls, usrcs, rcalls, rsrcs, names, prefix='finder_big_cmp_')
+    if nk + nd:
+        distinct.add(hash((data32.tobytes(), cells.tobytes())))
+    o.sample = {'shape': [rows, cols], 'region_kind': kind, 'island_sizes': sorted(len(p) for p in upix),
+                'restricted_islands': len(rcalls), 'kept': nk, 'dropped': nd}
